@@ -1,6 +1,21 @@
-"""C09 — saved reports load back unchanged (JSON and XML) (models M10 `Serial`, accessors of M4)."""
+"""C09 — saved reports load back unchanged (JSON and XML) (models M10 `Serial` + `JsonFile` + `Store`, accessors of M4).
+
+Streams
+  C09.json      one save + load with the JSON backend: every option combination of `JsonBackend` (JavaScript prefix or not, pretty or
+                compact), `backend.save_report` or `report.bind(); report.save()`, `backend.load_report` or the format-detecting
+                `load_report`; texts of every class, incl. texts QUOTING the file formats (`var reporting_data = `, `<?xml …`) and
+                split surrogate pairs; the start of the real file against `JsonFile.frame` / `unframe`
+  C09.xml       the same with the XML backend (D8 classes isolated), JSON-loaded = XML-loaded
+  C09.seq       ONE live report saved, modified in place (finished and already saved tests included) and saved again, several times,
+                with either backend, any options, the same or another path, the same or a fresh backend instance; every load must
+                give the report as it was at the last save to that path (model `Store.run`)
+  C09.etnorm    the XML text layer against `Serial.etNorm`
+  C09.jsontext  `json.dumps` against `JsonFile.jsonEscape`, the codecs against `JsonFile.encodable`
+  C09.time      the ISO-8601 millisecond text layer
+"""
 import copy
 import datetime
+import math
 import os
 import shutil
 import tempfile
@@ -16,7 +31,9 @@ DRIVER = "drivers/C09.lean"
 TRUSTED_BASE = [
     "Lean 4.33.0 kernel; axioms of the property theorems ⊆ {propext, Classical.choice, Quot.sound}",
     "hand-written model LccModel/Model/Serial.lean of reporting/backends/json_.py and xml.py (serialize/unserialize pairs, field by field) "
-    "and the accessors of report.py in LccModel/Model/Writer.lean (get_tests/get_suites: stable sort by rank)",
+    "and the accessors of report.py in LccModel/Model/Writer.lean (get_tests/get_suites: stable sort by rank); Model/JsonFile.lean "
+    "(JsonBackend options, JavaScript prefix written / stripped at offset 0, ensure_ascii escaping, codec encodability); Model/Store.lean "
+    "(a live report saved, modified and saved again: files hold serialised values, loads read them back)",
     "text layers are parameters of the model, each validated by its own stream and not proved: json.dumps/json.loads = identity on JSON "
     "values (C09.json), ET.tostring/ET.parse = etNorm (C09.etnorm), float→ms rounding and ISO-8601 text (C09.time)",
     "correspondence harness harness/props/c09.py + harness/gen/reports.py (generator, builder to real objects, canonical form)",
@@ -30,14 +47,25 @@ ASSUMPTIONS = [
     "property keys within a node (Python dicts)",
     "reports without a start time on some item (not producible by the reporting API) are outside the property: the XML serializer "
     "raises TypeError on them; the model predicts it, the oracle does not count it",
-    "the locale encoding used by open(path, 'w') is UTF-8",
+    "the locale encoding used by open(path, 'w') is UTF-8 (other locales: stream C10.locale)",
+    "the JSON text layer is the identity on every str except one holding a high surrogate immediately followed by a low surrogate as two "
+    "code points (open finding C09/json/split-surrogate-pair-merged); the model's input is the str as JSON spells it (merge_pairs)",
+    "modifications of a live report between two saves go through the attributes / methods of the report objects (tags, links, properties, "
+    "status, status_details, end_time, add_step, add_log, add_test, add_info, title, description, log message); the description the "
+    "oracle uses and the live objects are checked to agree after every modification (canon_report)",
 ]
-RULE = ("a generated report tree saved and loaded with the real backend; non-trivial = at least 2 results and (a string from a "
-        "non-plain class or an unfinished item); distinct = hash of the report description")
+RULE = ("a generated report tree saved and loaded with the real backend (JSON: every combination of javascript_compatibility / "
+        "pretty_formatting, backend.save_report or report.save(), backend.load_report or the format-detecting load_report); non-trivial = "
+        "at least 2 results and (a string from a non-plain class or an unfinished item); C09.seq: non-trivial = a successful save, then a "
+        "modification of the live objects, then another successful save; C09.jsontext: a string json.dumps has to escape; "
+        "distinct = hash of the case")
 EXPLANATION = ("Round-trip theorems for every report (JSON: unconditional on representable reports; XML: under the decidable guard "
                "xmlSafe, with refutation theorems for each D8 class) proved in Lean; the models are tied to json_.py / xml.py by saving "
                "and loading generated reports with the real backends and comparing the loaded object graph (or the failure class) with "
-               "the model's prediction; etNorm and the time text layer have their own differential streams.")
+               "the model's prediction; etNorm, the JSON escaping / encodability and the time text layer have their own differential "
+               "streams; the JSON file layer (options, prefix) is a theorem over every option combination and every text, its hypotheses "
+               "checked on every real file; sequences save / modify / save on the same live objects are a simulation theorem "
+               "(Store.run = Store.specRun) and the stream C09.seq.")
 
 # Times are taken below 2**33 s (year 2242): up to there the spacing of doubles is below 1 µs, so `utcfromtimestamp`'s rounding to
 # microseconds recovers the exact millisecond before `isoformat(timespec="milliseconds")` TRUNCATES; beyond, a millisecond can be
@@ -152,6 +180,71 @@ def classify_xml_diff(path, orig, got):
     return "C09/xml/field-changed"
 
 
+def xml_failures(d, o, what="XML round trip"):
+    """the property on one XML save+load outcome `o` of the report description `d`, classified per D8 class"""
+    fails = []
+    missing_start = d["start"] is None or any(s["start"] is None for s in R.iter_suites(d["suites"])) or any(
+        r["start"] is None or any(st["start"] is None for st in r["steps"]) for r in R.iter_results(d))
+    if o["outcome"] == "save-error":
+        if o["class"] == "UnicodeEncodeError":
+            fails.append(C.Failure("C09/xml/lone-surrogate-save-fails", "XML save raised UnicodeEncodeError"))
+        elif o["class"] == "TypeError" and missing_start:
+            pass    # not producible by the reporting API (see ASSUMPTIONS)
+        else:
+            fails.append(C.Failure("C09/xml/save-raised-" + o["class"], f"XML save raised {o['class']}"))
+        return fails
+    if o["outcome"] == "parse-error":
+        return [C.Failure("C09/xml/non-xml-char-unloadable", "the saved XML report cannot be loaded: " + o.get("message", ""))]
+    exp = R.nf_of_desc(d)
+    sigs = []
+    for p, a, b in all_diffs(exp, o["nf"]):
+        s = classify_xml_diff(p, a, b)
+        if s not in sigs:
+            sigs.append(s)
+            fails.append(C.Failure(s, f"{what} changed {p}: {a!r} -> {b!r}"))
+    return fails
+
+
+def merge_pairs(s):
+    """what the JSON text layer does to a str: a high surrogate immediately followed by a low surrogate (two code points)
+    is written `\\uD83D\\uDE00`, which IS the JSON spelling of one astral character — and is read back as that character"""
+    if not isinstance(s, str):
+        return s
+    out, i = [], 0
+    while i < len(s):
+        c = ord(s[i])
+        if 0xD800 <= c <= 0xDBFF and i + 1 < len(s) and 0xDC00 <= ord(s[i + 1]) <= 0xDFFF:
+            out.append(chr(0x10000 + ((c - 0xD800) << 10) + (ord(s[i + 1]) - 0xDC00)))
+            i += 2
+        else:
+            out.append(s[i])
+            i += 1
+    return "".join(out)
+
+
+def merge_pairs_deep(x):
+    if isinstance(x, str):
+        return merge_pairs(x)
+    if isinstance(x, list):
+        return [merge_pairs_deep(v) for v in x]
+    if isinstance(x, dict):
+        return {k: (v if k in R._ENUM_KEYS else merge_pairs_deep(v)) for k, v in x.items()}
+    return x
+
+
+def json_failures(d, o, what="JSON round trip"):
+    if o["outcome"] != "ok":
+        return [C.Failure("C09/json/" + o["outcome"], f"JSON save/load failed: { {k: v for k, v in o.items() if k != 'head'} }")]
+    fails, sigs = [], set()
+    for p, a, b in all_diffs(R.nf_of_desc(d), o["nf"]):
+        sig = "C09/json/split-surrogate-pair-merged" if isinstance(a, str) and isinstance(b, str) and a != b and merge_pairs(a) == b \
+            else "C09/json/field-changed"
+        if sig not in sigs:
+            sigs.add(sig)
+            fails.append(C.Failure(sig, f"{what} changed {p}: {a!r} -> {b!r}"))
+    return fails
+
+
 class _SaveLoad(C.Stream):
     backend = None
     fname = None
@@ -163,22 +256,38 @@ class _SaveLoad(C.Stream):
     def teardown(self, ctx):
         shutil.rmtree(self.dir, ignore_errors=True)
 
-    def save_load(self, backend, fname, report):
-        """-> {"outcome": ok|save-error|load-error, ...} observed on the real backend"""
+    def save_load(self, backend, fname, report, via="backend", how="backend"):
+        """-> {"outcome": ok|save-error|load-error, ...} observed on the real backend.
+        how: the save goes through `backend.save_report(path, report)` or `report.bind(backend, path); report.save()`;
+        via: the load goes through `backend.load_report(path)` or the format-detecting `lemoncheesecake.reporting.load_report`"""
         from lemoncheesecake.exceptions import ReportLoadingError
         path = os.path.join(getattr(self, "dir", None) or tempfile.gettempdir(), fname)
         if not getattr(self, "dir", None):
             self.dir = tempfile.mkdtemp(prefix="lccverif-c09-")
             path = os.path.join(self.dir, fname)
         try:
-            backend.save_report(path, report)
+            if how == "report.save":
+                report.bind(backend, path)
+                report.save()
+            else:
+                backend.save_report(path, report)
         except (TypeError, UnicodeEncodeError, ValueError) as e:
             return {"outcome": "save-error", "class": type(e).__name__}
+        out = {}
         try:
-            loaded = backend.load_report(path)
+            with open(path, "r", encoding="utf-8", errors="surrogateescape", newline="") as fh:
+                out["head"] = [ord(c) for c in fh.read(64)]
+        except OSError:
+            out["head"] = None
+        try:
+            if via == "loader":
+                from lemoncheesecake.reporting import load_report
+                loaded = load_report(path)
+            else:
+                loaded = backend.load_report(path)
         except ReportLoadingError as e:
-            return {"outcome": "parse-error", "message": str(e)[:80]}
-        return {"outcome": "ok", "report": R.canon_report(loaded), "nf": R.nf_report(loaded)}
+            return dict(out, outcome="parse-error", message=str(e)[:80])
+        return dict(out, outcome="ok", report=R.canon_report(loaded), nf=R.nf_report(loaded))
 
     def nontrivial(self, case, obs):
         d = case["report"]
@@ -189,6 +298,10 @@ class _SaveLoad(C.Stream):
     def _classes(d):
         out = set()
         for pos, s in R.all_strings(d):
+            if any(q in s for q in R.FORMAT_QUOTES):
+                out.add("format-quote")
+            if merge_pairs(s) != s:
+                out.add("split-pair")
             if s == "":
                 out.add("empty")
             elif "\r" in s:
@@ -212,6 +325,12 @@ class _SaveLoad(C.Stream):
         f = ["str:" + c for c in sorted(self._classes(d))]
         f.append("unfinished" if has_unfinished(d) else "finished")
         f.append("outcome:" + obs[self.key]["outcome"])
+        o = case.get("opts")
+        if o:
+            f.append("json-opts:jc=%d,pretty=%d" % (o["jc"], o["pretty"]))
+            f.append("load-via:" + case.get("via", "backend"))
+            if not o["jc"] and "format-quote" in self._classes(d):
+                f.append("format-quote&no-js-prefix")
         depth = max([len(p) for p in self._suite_paths(d)] or [0])
         f.append("depth=%d" % depth)
         sts = {t["res"]["status"] for t in R.iter_tests(d)}
@@ -229,7 +348,57 @@ class _SaveLoad(C.Stream):
 
     def shrink(self, case):
         for c in R.shrink_desc(case["report"]):
-            yield {"report": c}
+            yield dict(case, report=c)
+        if case.get("via", "backend") != "backend":
+            yield dict(case, via="backend")
+        if case.get("how", "backend") != "backend":
+            yield dict(case, how="backend")
+        o = case.get("opts")
+        if o and o["pretty"]:
+            yield dict(case, opts=dict(o, pretty=False))
+        if o and not o["jc"]:
+            yield dict(case, opts=dict(o, jc=True))
+
+
+def text_spots(d):
+    """(holder, key) of every free-text position of a description"""
+    spots = []
+    for res in R.iter_results(d):
+        for st in res["steps"]:
+            spots.append((st, "desc"))
+            for e in st["entries"]:
+                for k in ("msg", "desc", "details", "file", "url"):
+                    if k in e:
+                        spots.append((e, k))
+        spots.append((res, "details"))
+    for s_ in R.iter_suites(d["suites"]):
+        spots.append((s_["md"], "desc"))
+        for t in s_["tests"]:
+            spots.append((t["md"], "desc"))
+    spots.append((d, "title"))
+    return spots
+
+
+def plant(rng, d, cls, n=1):
+    """put `n` strings of class `cls` at random text positions of `d`"""
+    spots = text_spots(d)
+    for _ in range(n):
+        holder, k = rng.choice(spots)
+        holder[k] = R.gen_string(rng, cls)
+    d["_planted"] = cls
+
+
+def gen_json_opts(rng):
+    """the options of `JsonBackend` / `save_report_into_file` and the way the file is loaded back"""
+    return ({"jc": rng.random() < 0.5, "pretty": rng.random() < 0.4},
+            rng.choice(["backend", "backend", "loader"]))
+
+
+def json_backend(opts):
+    from lemoncheesecake.reporting import JsonBackend
+    if opts is None:
+        return JsonBackend()
+    return JsonBackend(javascript_compatibility=opts["jc"], pretty_formatting=opts["pretty"])
 
 
 class JsonStream(_SaveLoad):
@@ -244,32 +413,45 @@ class JsonStream(_SaveLoad):
     def gen(self, rng, i):
         mode = rng.choice(["wild", "wild", "safe", "plain"])
         odd = rng.random() < 0.35
-        return {"report": R.gen_report(rng, mode, odd=odd, none_times=0.02 if odd else 0, zero_times=0.02 if odd else 0)}
+        d = R.gen_report(rng, mode, odd=odd, none_times=0.02 if odd else 0, zero_times=0.02 if odd else 0)
+        r = rng.random()
+        if r < 0.3:
+            plant(rng, d, "format-quote", rng.choice([1, 1, 3]))
+        elif r < 0.34:
+            plant(rng, d, "split-pair")
+        opts, via = gen_json_opts(rng)
+        return {"report": d, "opts": opts, "via": via, "how": rng.choice(["backend", "backend", "report.save"])}
 
     def impl(self, case):
-        from lemoncheesecake.reporting import JsonBackend
         rep = R.build_report(R.strip_private(case["report"]))
-        return {"json": self.save_load(JsonBackend(), "report.js", rep)}
+        return {"json": self.save_load(json_backend(case.get("opts")), "report.js", rep, case.get("via", "backend"),
+                                       case.get("how", "backend"))}
 
     def oracle(self, case, obs):
-        o = obs["json"]
-        if o["outcome"] != "ok":
-            return [C.Failure("C09/json/" + o["outcome"], f"JSON save/load failed: {o}")]
-        exp = R.nf_of_desc(case["report"])
-        d = first_diff(exp, o["nf"])
-        if d:
-            return [C.Failure("C09/json/field-changed", f"JSON round trip changed {d[0]}: {d[1]!r} -> {d[2]!r}")]
-        return []
+        return json_failures(case["report"], obs["json"])
 
     def request(self, case, obs):
         o = obs["json"]
         g = o["report"]["saving"] if o["outcome"] == "ok" else 0
-        return {"op": "json", "report": R.wire(case["report"]), "g": g or 0}
+        opts = case.get("opts") or {"jc": True, "pretty": False}
+        # the model is on JSON values; the text layer (the parameter `jsonText`) maps a str to the JSON string it is written as:
+        # the identity except on a split surrogate pair (open finding C09/json/split-surrogate-pair-merged, C09.jsontext)
+        return {"op": "json", "report": R.wire(merge_pairs_deep(R.strip_private(case["report"]))), "g": g or 0, "opts": opts,
+                "head": o.get("head")}
 
     def compare(self, case, obs, ans):
         o = obs["json"]
         if "error" in ans:
             return "model error: " + ans["error"]
+        if o.get("head") is not None:
+            # the file layer (Model/JsonFile.lean): what `frame opts` predicts about the start of the real file, the
+            # hypothesis `hobj` of theorem json_file_roundtrip (the JSON text starts with "{"), and `unframe` on the real text
+            opts = case.get("opts") or {"jc": True, "pretty": False}
+            n = len("var reporting_data = ") if opts["jc"] else 0
+            if not ans.get("frame_ok"):
+                return "the file does not start with frame(opts, '{'): head %r" % "".join(map(chr, o["head"][:30]))
+            if ans.get("unframed") != o["head"][n:]:
+                return "unframe(head) differs from the head without the %d-character prefix" % n
         if "err" in ans:
             return None if o["outcome"] != "ok" else f"model predicts load error {ans['err']}, real load succeeded"
         if o["outcome"] != "ok":
@@ -290,13 +472,17 @@ class XmlStream(_SaveLoad):
 
     def gen(self, rng, i):
         mode = rng.choice(["wild", "safe", "safe", "plain"])
+        opts, via = gen_json_opts(rng)
         if mode == "wild" and rng.random() < 0.5:
             # one hostile string in an otherwise preserved report: isolates the D8 classes
             d = R.gen_report(rng, "safe", odd=False)
             self._plant(rng, d)
-            return {"report": d}
+            return {"report": d, "opts": opts, "via": via}
         odd = rng.random() < 0.3
-        return {"report": R.gen_report(rng, mode, odd=odd, none_times=0.01 if odd else 0, zero_times=0.02 if odd else 0)}
+        d = R.gen_report(rng, mode, odd=odd, none_times=0.01 if odd else 0, zero_times=0.02 if odd else 0)
+        if mode != "wild" and rng.random() < 0.3:
+            plant(rng, d, "format-quote", rng.choice([1, 1, 3]))
+        return {"report": d, "opts": opts, "via": via}
 
     @staticmethod
     def _plant(rng, d):
@@ -321,39 +507,20 @@ class XmlStream(_SaveLoad):
         d["_planted"] = cls
 
     def impl(self, case):
-        from lemoncheesecake.reporting import JsonBackend, XmlBackend
+        from lemoncheesecake.reporting import XmlBackend
         desc = R.strip_private(case["report"])
-        x = self.save_load(XmlBackend(), "report.xml", R.build_report(desc))
-        j = self.save_load(JsonBackend(), "report.js", R.build_report(desc))
+        via = case.get("via", "backend")
+        x = self.save_load(XmlBackend(), "report.xml", R.build_report(desc), via)
+        j = self.save_load(json_backend(case.get("opts")), "report.js", R.build_report(desc), via)
+        x.pop("head", None)
         if x["outcome"] == "ok":
             x["none_text"] = none_text_positions(x["report"])
         return {"xml": x, "json_nf": j.get("nf"), "json_outcome": j["outcome"]}
 
     def oracle(self, case, obs):
         o = obs["xml"]
-        d = case["report"]
-        fails = []
-        missing_start = d["start"] is None or any(s["start"] is None for s in R.iter_suites(d["suites"])) or any(
-            r["start"] is None or any(st["start"] is None for st in r["steps"]) for r in R.iter_results(d))
-        if o["outcome"] == "save-error":
-            if o["class"] == "UnicodeEncodeError":
-                fails.append(C.Failure("C09/xml/lone-surrogate-save-fails", "XML save raised UnicodeEncodeError"))
-            elif o["class"] == "TypeError" and missing_start:
-                pass    # not producible by the reporting API (see ASSUMPTIONS)
-            else:
-                fails.append(C.Failure("C09/xml/save-raised-" + o["class"], f"XML save raised {o['class']}"))
-            return fails
-        if o["outcome"] == "parse-error":
-            return [C.Failure("C09/xml/non-xml-char-unloadable", "the saved XML report cannot be loaded: " + o.get("message", ""))]
-        exp = R.nf_of_desc(d)
-        diffs = all_diffs(exp, o["nf"])
-        sigs = []
-        for p, a, b in diffs:
-            s = classify_xml_diff(p, a, b)
-            if s not in sigs:
-                sigs.append(s)
-                fails.append(C.Failure(s, f"XML round trip changed {p}: {a!r} -> {b!r}"))
-        if not diffs and obs["json_outcome"] == "ok":
+        fails = xml_failures(case["report"], o)
+        if o["outcome"] == "ok" and not fails and obs["json_outcome"] == "ok":
             dj = first_diff(obs["json_nf"], o["nf"])
             if dj:
                 fails.append(C.Failure("C09/backends-disagree", f"JSON-loaded and XML-loaded reports differ at {dj[0]}: {dj[1]!r} vs {dj[2]!r}"))
@@ -508,7 +675,8 @@ class TimeLayer(C.Stream):
     thorough_seconds = 60
     chunk = 500
     corpus = [{"ms": 0}, {"ms": 1}, {"ms": 999}, {"ms": 1000}, {"ms": R.T0}, {"ms": TMAX_MS - 1}, {"x": 1600000000.0005},
-              {"x": 0.0015}, {"x": 1.0004999}, {"x": 1600000000.9995}]
+              {"x": 0.0015}, {"x": 1.0004999}, {"x": 1600000000.9995},
+              {"x": 4253578702.2205}]     # just below a tie, where doubles are 0.48 µs apart (a past false alarm of this oracle)
 
     def gen(self, rng, i):
         if rng.random() < 0.5:
@@ -536,7 +704,10 @@ class TimeLayer(C.Stream):
             return []
         x = case["x"]
         k = round(back * 1000)
-        if back != k / 1000.0 or abs(back - x) > 0.000500001:
+        # exact arithmetic on the value of the double x (a float subtraction near 4e9 is itself off by ~5e-7):
+        # the millisecond count k that came back must be a nearest integer to 1000·x (either one on a tie)
+        from decimal import Decimal
+        if back != k / 1000.0 or abs(Decimal(x) * 1000 - k) > Decimal("0.5"):
             return [C.Failure("C09/time/not-nearest-ms", f"{x!r} came back as {obs['back']}")]
         return []
 
@@ -545,6 +716,555 @@ class TimeLayer(C.Stream):
 
     def features(self, case, obs):
         return ["exact-ms" if "ms" in case else "float"]
+
+
+# ---- sequences: the same live objects saved, modified, saved again --------------------------------
+
+def _desc_suite(d, idxs):
+    lst, s = d["suites"], None
+    for i in idxs:
+        if i >= len(lst):
+            return None
+        s = lst[i]
+        lst = s["suites"]
+    return s
+
+
+def _real_suite(rep, idxs):
+    lst, s = rep._suites, None
+    for i in idxs:
+        s = lst[i]
+        lst = s._suites
+    return s
+
+
+def _desc_target(d, at):
+    """(metadata dict or None, result dict or None) the mutation addresses; (None, None) if it does not exist (any more)"""
+    if not at["suite"]:
+        res = d.get(at.get("phase") or "")
+        return None, res
+    s = _desc_suite(d, at["suite"])
+    if s is None:
+        return None, None
+    if at.get("test") is not None:
+        if at["test"] >= len(s["tests"]):
+            return None, None
+        t = s["tests"][at["test"]]
+        return t["md"], t["res"]
+    if at.get("phase"):
+        return None, s[at["phase"]]
+    return s["md"], None
+
+
+def _real_target(rep, at):
+    if not at["suite"]:
+        return None, (rep.test_session_setup if at["phase"] == "setup" else rep.test_session_teardown)
+    s = _real_suite(rep, at["suite"])
+    if at.get("test") is not None:
+        t = list(s._tests.values())[at["test"]]
+        return t, t
+    if at.get("phase"):
+        return None, (s.suite_setup if at["phase"] == "setup" else s.suite_teardown)
+    return s, None
+
+
+def apply_mutation(d, rep, m):
+    """apply one modification to the description `d` and — the same one, in place, on the SAME objects — to the live report
+    `rep` (None: description only).  Returns False when the target does not exist (a no-op on both sides)."""
+    k = m["m"]
+    if k == "title":
+        d["title"] = m["s"]
+        if rep is not None:
+            rep.title = m["s"]
+        return True
+    if k == "info":
+        d["info"].append([m["k"], m["v"]])
+        if rep is not None:
+            rep.add_info(m["k"], m["v"])
+        return True
+    if k == "report-end":
+        d["end"] = m["t"]
+        if rep is not None:
+            rep.end_time = m["t"] / 1000.0
+        return True
+    md, res = _desc_target(d, m["at"])
+    if md is None and res is None:
+        return False
+    node, rres = _real_target(rep, m["at"]) if rep is not None else (None, None)
+    if k in ("tag", "link", "prop", "desc"):
+        if md is None:
+            return False
+        if k == "tag":
+            md["tags"].append(m["s"])
+            if rep is not None:
+                node.tags.append(m["s"])
+        elif k == "link":
+            md["links"].append([m["url"], m["name"]])
+            if rep is not None:
+                node.links.append((m["url"], m["name"]))
+        elif k == "prop":
+            for kv in md["props"]:
+                if kv[0] == m["k"]:
+                    kv[1] = m["v"]
+                    break
+            else:
+                md["props"].append([m["k"], m["v"]])
+            if rep is not None:
+                node.properties[m["k"]] = m["v"]
+        else:
+            md["desc"] = m["s"]
+            if rep is not None:
+                node.description = m["s"]
+        return True
+    if k == "suite-end":
+        s = _desc_suite(d, m["at"]["suite"])
+        if s is None:
+            return False
+        s["end"] = m["t"]
+        if rep is not None:
+            _real_suite(rep, m["at"]["suite"]).end_time = m["t"] / 1000.0
+        return True
+    if k == "add-test":
+        s = _desc_suite(d, m["at"]["suite"])
+        if s is None or any(t["md"]["name"] == m["test"]["md"]["name"] for t in s["tests"]):
+            return False
+        s["tests"].append(copy.deepcopy(m["test"]))
+        if rep is not None:
+            _real_suite(rep, m["at"]["suite"]).add_test(R.build_test(m["test"]))
+        return True
+    if res is None:
+        return False
+    if k == "status":
+        res["status"], res["details"] = m["status"], m["details"]
+        if rep is not None:
+            rres.status, rres.status_details = m["status"], m["details"]
+    elif k == "end":
+        res["end"] = m["t"]
+        if res["status"] is None:
+            res["status"] = m["status"]
+        if rep is not None:
+            rres.end_time = m["t"] / 1000.0
+            rres.status = res["status"]
+    elif k == "add-step":
+        res["steps"].append(copy.deepcopy(m["step"]))
+        if rep is not None:
+            rres.add_step(R.build_step(m["step"]))
+    elif k == "add-entry":
+        if not res["steps"]:
+            return False
+        res["steps"][-1]["entries"].append(copy.deepcopy(m["entry"]))
+        if rep is not None:
+            rres.get_steps()[-1].add_log(R.build_entry(m["entry"]))
+    elif k == "step-end":
+        if not res["steps"]:
+            return False
+        res["steps"][-1]["end"] = m["t"]
+        if rep is not None:
+            rres.get_steps()[-1].end_time = m["t"] / 1000.0
+    elif k == "edit-log":
+        logs = [(si, ei) for si, st in enumerate(res["steps"]) for ei, e in enumerate(st["entries"]) if e["k"] == "log"]
+        if not logs:
+            return False
+        si, ei = logs[m["i"] % len(logs)]
+        res["steps"][si]["entries"][ei]["msg"] = m["s"]
+        if rep is not None:
+            rres.get_steps()[si].get_logs()[ei].message = m["s"]
+    else:
+        raise ValueError(k)
+    return True
+
+
+def gen_mutation(rng, d, tx, t):
+    """one modification of the (current) description `d`; finished tests — what a triage / post-processing script annotates —
+    are the favourite target"""
+    targets = []
+    for path, s in _suites_with_idx(d["suites"], []):
+        targets.append(({"suite": path}, "suite", None))
+        for ph in ("setup", "teardown"):
+            if s[ph] is not None:
+                targets.append(({"suite": path, "phase": ph}, "phase", s[ph]))
+        for i, tst in enumerate(s["tests"]):
+            w = 4 if tst["res"]["end"] is not None and tst["res"]["status"] is not None else 2
+            targets += [({"suite": path, "test": i}, "test", tst["res"])] * w
+    for ph in ("setup", "teardown"):
+        if d[ph] is not None:
+            targets.append(({"suite": [], "phase": ph}, "phase", d[ph]))
+    r = rng.random()
+    if r < 0.12 or not targets:
+        return rng.choice([{"m": "title", "s": tx.s()}, {"m": "info", "k": tx.s(0.8) + str(rng.randint(0, 999)), "v": tx.s()},
+                           {"m": "report-end", "t": t}])
+    at, kind, res = rng.choice(targets)
+    if kind == "suite":
+        c = rng.choice(["tag", "link", "prop", "desc", "suite-end", "add-test", "add-test"])
+        if c == "add-test":
+            test = R.gen_test(rng, tx, R.Clock(rng, t), "added_%d" % rng.randint(0, 9999), rng.randint(0, 3), {}, finished=rng.random() < 0.8)
+            return {"m": "add-test", "at": at, "test": test}
+        if c == "suite-end":
+            return {"m": "suite-end", "at": at, "t": t}
+    elif kind == "phase":
+        c = rng.choice(["status", "add-step", "add-entry", "end"])
+    else:
+        c = rng.choice(["tag", "link", "prop", "desc", "status", "status", "add-step", "add-step", "add-entry", "add-entry", "end",
+                        "step-end", "edit-log"])
+    if c == "tag":
+        return {"m": "tag", "at": at, "s": tx.s()}
+    if c == "link":
+        return {"m": "link", "at": at, "url": tx.s(), "name": rng.choice([None, tx.s()])}
+    if c == "prop":
+        return {"m": "prop", "at": at, "k": rng.choice(["prio", "owner", tx.s(0.8)]), "v": tx.s()}
+    if c == "desc":
+        return {"m": "desc", "at": at, "s": tx.s()}
+    if c == "status":
+        return {"m": "status", "at": at, "status": rng.choice(R.STATUSES), "details": rng.choice([None, tx.s()])}
+    if c == "end":
+        return {"m": "end", "at": at, "t": t, "status": rng.choice(["passed", "failed"])}
+    if c == "step-end":
+        return {"m": "step-end", "at": at, "t": t}
+    if c == "edit-log":
+        return {"m": "edit-log", "at": at, "i": rng.randint(0, 5), "s": tx.s()}
+    clk = R.Clock(rng, t)
+    if c == "add-step":
+        start = clk.tick()
+        entries = [R.gen_entry(rng, tx, clk) for _ in range(rng.choice([0, 1, 2]))]
+        return {"m": "add-step", "at": at, "step": {"desc": tx.s(), "start": start, "end": rng.choice([None, clk.tick()]), "entries": entries}}
+    return {"m": "add-entry", "at": at, "entry": R.gen_entry(rng, tx, clk)}
+
+
+def _suites_with_idx(ss, pre):
+    for i, s in enumerate(ss):
+        yield pre + [i], s
+        yield from _suites_with_idx(s["suites"], pre + [i])
+
+
+def replay_descs(case):
+    """the description after each operation (pure: from the case only)"""
+    d = copy.deepcopy(R.strip_private(case["report"]))
+    out = []
+    for op in case["ops"]:
+        if op["op"] == "mut":
+            apply_mutation(d, None, op)
+        out.append(copy.deepcopy(d))
+    return out
+
+
+class SeqStream(_SaveLoad):
+    """one live `Report` object graph goes through a sequence of saves (either backend, any JSON options, same or another path,
+    same or a fresh backend instance, `backend.save_report` or `report.save()`), in-place modifications (of tests that were
+    finished and saved already, too) and loads; every load must give the report as it was at the last save to that path"""
+    name = "C09.seq"
+    key = "seq"
+    quick_cases = 150
+    thorough_cases = 3000
+    quick_seconds = 14
+    thorough_seconds = 240
+    chunk = 25
+    corpus = []     # filled below
+
+    def gen(self, rng, i):
+        mode = rng.choice(["safe", "safe", "plain", "wild"])
+        d = R.gen_report(rng, mode, max_depth=2, unfinished=0.3, odd=False)
+        tx = R.Text(rng, mode)
+        t = R.T0 + 10_000_000
+        cur = copy.deepcopy(R.strip_private(d))
+        ops, saved, stage = [], set(), 0      # stage: 0 nothing saved, 1 saved, 2 modified after a save, 3 saved again
+        n = rng.randint(4, 9)
+        while (len(ops) < n or stage < 3) and len(ops) < 15:
+            r = rng.random()
+            if not saved or r < 0.38 or (len(ops) >= n and stage == 2):
+                opts, via = gen_json_opts(rng)
+                path = rng.choice([0, 0, 0, 1, 2])
+                ops.append({"op": "save", "backend": rng.choice(["json", "json", "xml"]), "opts": opts, "via": via, "path": path,
+                            "reuse": rng.random() < 0.6, "how": rng.choice(["backend", "backend", "report.save"])})
+                saved.add(path)
+                stage = 1 if stage == 0 else 3 if stage == 2 else stage
+            elif r < 0.85:
+                t += rng.choice([1, 250, 1000, 61_003])
+                m = gen_mutation(rng, cur, tx, t)
+                if apply_mutation(cur, None, m):
+                    ops.append(dict(m, op="mut"))
+                    stage = 2 if stage == 1 else stage
+            else:
+                ops.append({"op": "load", "path": rng.choice(sorted(saved)), "via": rng.choice(["backend", "loader"])})
+        return {"report": d, "ops": ops}
+
+    def impl(self, case):
+        from lemoncheesecake.reporting import XmlBackend, load_report
+        from lemoncheesecake.exceptions import ReportLoadingError
+        d = copy.deepcopy(R.strip_private(case["report"]))
+        live = R.build_report(d)
+        backends, last_backend, steps = {}, {}, []
+
+        def load(path, via, be):
+            fname = os.path.join(self.dir, "f%d.report" % path)
+            if not os.path.exists(fname):
+                return {"outcome": "no-file"}
+            try:
+                loaded = load_report(fname) if via == "loader" or be is None else be.load_report(fname)
+            except ReportLoadingError as e:
+                return {"outcome": "parse-error", "message": str(e)[:80]}
+            o = {"outcome": "ok", "report": R.canon_report(loaded), "nf": R.nf_report(loaded)}
+            o["none_text"] = none_text_positions(o["report"])
+            return o
+        for f in os.listdir(self.dir):
+            if f.endswith(".report") or f.endswith(".tmp"):
+                os.unlink(os.path.join(self.dir, f))
+        for op in case["ops"]:
+            if op["op"] == "mut":
+                if not apply_mutation(d, live, op):
+                    steps.append({"k": "noop"})
+                    continue
+                mirror = R.canon_report(live)
+                mirror["saving"] = None
+                if mirror != dict(d, saving=None):
+                    raise C.InfraError("C09.seq: description and live objects diverge after %r: %s" % (op["m"], first_diff(d, mirror)))
+                steps.append({"k": "mut"})
+            elif op["op"] == "save":
+                key = (op["backend"], op["opts"]["jc"], op["opts"]["pretty"])
+                be = backends.get(key) if op["reuse"] else None
+                if be is None:
+                    be = json_backend(op["opts"]) if op["backend"] == "json" else XmlBackend()
+                    backends[key] = be
+                fname = os.path.join(self.dir, "f%d.report" % op["path"])
+                st = {"k": "save", "saved": True}
+                try:
+                    if op["how"] == "report.save":
+                        live.bind(be, fname)
+                        live.save()
+                    else:
+                        be.save_report(fname, live)
+                    last_backend[op["path"]] = be
+                except (TypeError, UnicodeEncodeError, ValueError) as e:
+                    st = {"k": "save", "saved": False, "class": type(e).__name__}
+                st["stray"] = sorted(f for f in os.listdir(self.dir) if f.endswith(".tmp"))
+                st["load"] = load(op["path"], op["via"], last_backend.get(op["path"]))
+                steps.append(st)
+            else:
+                steps.append({"k": "load", "load": load(op["path"], op["via"], last_backend.get(op["path"]))})
+        return {"seq": {"outcome": "ok" if all(s.get("saved", True) for s in steps) else "save-error"}, "steps": steps}
+
+    def _expected(self, case):
+        """per op: (kind of the backend whose save the file at that path comes from, description at that save) for loads"""
+        descs = replay_descs(case)
+        return descs
+
+    def oracle(self, case, obs):
+        descs = replay_descs(case)
+        fails, at_save = [], {}          # path -> (backend kind, desc at the last SUCCESSFUL save)
+        seen = set()
+
+        def add(fs):
+            for f in fs:
+                if f.signature not in seen:
+                    seen.add(f.signature)
+                    fails.append(f)
+        for i, (op, st) in enumerate(zip(case["ops"], obs["steps"])):
+            if op["op"] == "mut":
+                continue
+            if op["op"] == "save":
+                if st["saved"]:
+                    at_save[op["path"]] = (op["backend"], descs[i])
+                else:
+                    o = {"outcome": "save-error", "class": st["class"]}
+                    add(xml_failures(descs[i], o) if op["backend"] == "xml" else json_failures(descs[i], o))
+                if st.get("stray"):
+                    add([C.Failure("C09/seq/stray-temporary-file", "files left beside the report after save #%d: %s" % (i, st["stray"]))])
+            if op["path"] not in at_save:
+                continue
+            kind, d = at_save[op["path"]]
+            ld = st["load"]
+            what = "op #%d (%s of a report saved, modified and saved again with the same live objects)" % (i, op["op"])
+            if ld["outcome"] == "no-file":
+                add([C.Failure("C09/seq/file-missing", "%s: no file at the path of a successful save" % what)])
+            else:
+                add(xml_failures(d, ld, what) if kind == "xml" else json_failures(d, ld, what))
+        return fails
+
+    def request(self, case, obs):
+        descs = replay_descs(case)
+        ops = []
+        for i, (op, st) in enumerate(zip(case["ops"], obs["steps"])):
+            if op["op"] == "mut":
+                if st["k"] == "mut":
+                    ops.append({"k": "set", "report": R.wire(descs[i])})
+            elif op["op"] == "save":
+                g = 0
+                if st["saved"] and st["load"]["outcome"] == "ok":
+                    g = st["load"]["report"]["saving"] or 0
+                ops.append({"k": "save", "path": op["path"], "fmt": op["backend"], "jc": op["opts"]["jc"], "pretty": op["opts"]["pretty"], "g": g})
+                ops.append({"k": "load", "path": op["path"]})
+            else:
+                ops.append({"k": "load", "path": op["path"]})
+        return {"op": "seq", "report": R.wire(case["report"]), "ops": ops}
+
+    def compare(self, case, obs, ans):
+        if "error" in ans:
+            return "model error: " + str(ans["error"])
+        outs = list(ans["outcomes"])
+        for i, (op, st) in enumerate(zip(case["ops"], obs["steps"])):
+            if op["op"] == "mut":
+                continue
+            if op["op"] == "save":
+                m = outs.pop(0)
+                if st["saved"] != (m["o"] == "saved") or (not st["saved"] and m.get("class") != st["class"]):
+                    return "op #%d: real save %s, model %s" % (i, "succeeded" if st["saved"] else "raised " + st["class"], m)
+            m = outs.pop(0)
+            d = compare_load(st["load"], m)
+            if d:
+                return "op #%d (%s path %d): %s" % (i, op["op"], op["path"], d)
+        return None
+
+    def nontrivial(self, case, obs):
+        # a successful save, then a modification, then another successful save of the same live objects
+        stage = 0
+        for op, st in zip(case["ops"], obs["steps"]):
+            if op["op"] == "save" and st.get("saved"):
+                stage = 1 if stage == 0 else (3 if stage == 2 else stage)
+            elif op["op"] == "mut" and st["k"] == "mut" and stage == 1:
+                stage = 2
+        return stage == 3
+
+    def features(self, case, obs):
+        f = []
+        saves = [op for op in case["ops"] if op["op"] == "save"]
+        f.append("saves=%d" % min(len(saves), 5))
+        f.append("mutations=%d" % min(sum(1 for s in obs["steps"] if s["k"] == "mut"), 6))
+        for op in case["ops"]:
+            if op["op"] == "mut":
+                f.append("mut:" + op["m"])
+        if len({op["path"] for op in saves}) < len(saves):
+            f.append("same-path-saved-again")
+        if len({op["backend"] for op in saves}) > 1:
+            f.append("json-and-xml-saves")
+        if any(op["reuse"] for op in saves[1:]):
+            f.append("backend-instance-reused")
+        if any(op["how"] == "report.save" for op in saves):
+            f.append("report.save()")
+        if any(not op["opts"]["jc"] for op in saves if op["backend"] == "json"):
+            f.append("json-without-js-prefix")
+        if self.nontrivial(case, obs):
+            f.append("save-modify-save")
+            # a test finished at the first save and modified before a later one
+            f.append("finished-test-modified-after-save" if self._finished_test_modified(case) else "other-modification")
+        for st in obs["steps"]:
+            if "load" in st:
+                f.append("load:" + st["load"]["outcome"])
+        return sorted(set(f))
+
+    @staticmethod
+    def _finished_test_modified(case):
+        d = copy.deepcopy(R.strip_private(case["report"]))
+        saved = False
+        for op in case["ops"]:
+            if op["op"] == "save":
+                saved = True
+            elif op["op"] == "mut" and saved and op.get("at", {}).get("test") is not None and op["m"] != "end":
+                md, res = _desc_target(d, op["at"])
+                if res is not None and res["end"] is not None and res["status"] is not None:
+                    return True
+            if op["op"] == "mut":
+                apply_mutation(d, None, op)
+        return False
+
+    def shrink(self, case):
+        ops = case["ops"]
+        for i in range(len(ops)):
+            yield dict(case, ops=ops[:i] + ops[i + 1:])
+        for c in R.shrink_desc(case["report"]):
+            yield dict(case, report=c)
+        for i, op in enumerate(ops):
+            if op["op"] == "save":
+                for k, v in (("reuse", False), ("how", "backend"), ("via", "backend")):
+                    if op[k] != v:
+                        yield dict(case, ops=ops[:i] + [dict(op, **{k: v})] + ops[i + 1:])
+                if op["opts"]["pretty"] or not op["opts"]["jc"]:
+                    yield dict(case, ops=ops[:i] + [dict(op, opts={"jc": True, "pretty": False})] + ops[i + 1:])
+
+
+def compare_load(o, m):
+    """one real load observation against one outcome of `Store.run`"""
+    mo = m["o"]
+    if o["outcome"] == "no-file":
+        return None if mo == "no-file" else "real: no file; model: %s" % mo
+    if o["outcome"] == "parse-error":
+        return None if mo == "parse-error" else "real: unloadable file; model: %s" % mo
+    if o.get("none_text"):
+        if mo == "none-text":
+            return None if m["what"] in o["none_text"] else "None text at %s, model says %s" % (o["none_text"], m["what"])
+        return "real load has None at %s; model: %s" % (o["none_text"], mo)
+    if mo != "loaded":
+        return "real load succeeded; model: %s" % {k: v for k, v in m.items() if k != "report"}
+    d = first_diff(o["report"], R.unwire(m["report"]))
+    return None if d is None else "loaded report differs from the model's at %s: real %r model %r" % d
+
+
+# ---- the JSON text layer: ensure_ascii escaping, encodability -----------------------------------
+
+class JsonText(C.Stream):
+    """validates `JsonFile.jsonEscape` against `json.dumps` (what json_.py calls) and `JsonFile.writeOk` against the codecs"""
+    name = "C09.jsontext"
+    quick_cases = 1500
+    thorough_cases = 40000
+    quick_seconds = 4
+    thorough_seconds = 60
+    chunk = 300
+    corpus = [{"s": ""}, {"s": "\"\\/\b\f\n\r\t"}, {"s": "\x00\x1f\x7f\x80\xff"}, {"s": "\ud800"}, {"s": "\udfff\ud800"},
+              {"s": "\U00010000\U0010ffff"}, {"s": "😀"}, {"s": "var reporting_data = "}]
+
+    def gen(self, rng, i):
+        if rng.random() < 0.5:
+            return {"s": R.gen_string(rng, rng.choice(R.STRING_CLASSES + ["format-quote"]))[:200]}
+        n = rng.randint(1, 12)
+        pick = lambda: rng.choice([rng.randrange(0, 0x80), rng.randrange(0x80, 0x800), rng.randrange(0x800, 0xD800), rng.randrange(0xD800, 0xE000),
+                                   rng.randrange(0xE000, 0x10000), rng.randrange(0x10000, 0x110000), rng.choice([0x22, 0x5C, 0x2F, 0x7F, 0xFFFE, 0xFFFF])])
+        return {"s": "".join(chr(pick()) for _ in range(n))}
+
+    def impl(self, case):
+        import json
+        s = case["s"]
+        out = json.dumps(s)
+        enc = {}
+        for name, codec in (("ascii", "ascii"), ("latin1", "latin-1"), ("utf8", "utf-8")):
+            try:
+                s.encode(codec)
+                enc[name] = True
+            except UnicodeEncodeError:
+                enc[name] = False
+        return {"out": [ord(c) for c in out[1:-1]], "quoted": out[:1] == '"' and out[-1:] == '"', "back": "same" if json.loads(out) == s else "merged" if json.loads(out) == merge_pairs(s) else "other", "enc": enc}
+
+    def oracle(self, case, obs):
+        if obs["back"] == "same":
+            return []
+        if obs["back"] == "merged":
+            return [C.Failure("C09/json/split-surrogate-pair-merged", "json.loads(json.dumps(s)) merges the split surrogate pair of %r" % case["s"])]
+        return [C.Failure("C09/jsontext/not-identity", "json.loads(json.dumps(s)) != s for %r" % case["s"])]
+
+    def request(self, case, obs):
+        return {"op": "escape", "s": [ord(c) for c in case["s"]]}
+
+    def compare(self, case, obs, ans):
+        if "error" in ans:
+            return "model error: " + str(ans["error"])
+        if ans["out"] != obs["out"] or not obs["quoted"]:
+            return "json.dumps(%r) = %r, model %r" % (case["s"], "".join(map(chr, obs["out"])), "".join(map(chr, ans["out"])))
+        for k in ("ascii", "latin1", "utf8"):
+            if ans[k] != obs["enc"][k]:
+                return "encodable(%s, %r): codec %s, model %s" % (k, case["s"], obs["enc"][k], ans[k])
+        return None
+
+    def nontrivial(self, case, obs):
+        return any(ord(c) > 0x7E or ord(c) < 0x20 or c in '"\\' for c in case["s"])
+
+    def features(self, case, obs):
+        s = case["s"]
+        f = []
+        if any(0xD800 <= ord(c) <= 0xDFFF for c in s):
+            f.append("lone-surrogate")
+        if any(ord(c) > 0xFFFF for c in s):
+            f.append("astral")
+        if merge_pairs(s) != s:
+            f.append("split-surrogate-pair")
+        f += ["encodable:%s=%s" % (k, v) for k, v in obs["enc"].items()]
+        return f
 
 
 def _w(title="t", **kw):
@@ -575,8 +1295,32 @@ WITNESSES = [
     _w(title=""),
 ]
 XmlStream.corpus = WITNESSES
-JsonStream.corpus = WITNESSES
+JsonStream.corpus = WITNESSES + [
+    # a text quoting the JavaScript prefix of report.js, saved WITHOUT the prefix (and with it)
+    dict(_w(msg="report.js starts with: var reporting_data = {"), opts={"jc": False, "pretty": False}, via="backend"),
+    dict(_w(title="var reporting_data = "), opts={"jc": False, "pretty": True}, via="loader"),
+    dict(_w(msg="var reporting_data = var reporting_data = "), opts={"jc": True, "pretty": False}, via="loader"),
+    _w(msg="\ud83d\ude00"),           # C09/json/split-surrogate-pair-merged (two code points, not U+1F600)
+]
+
+
+def _save(backend="json", path=0, jc=True, pretty=False, reuse=True, how="backend", via="backend"):
+    return {"op": "save", "backend": backend, "opts": {"jc": jc, "pretty": pretty}, "via": via, "path": path, "reuse": reuse, "how": how}
+
+
+_T1 = {"suite": [0], "test": 0}
+# a finished test is saved, annotated (what a triage script does), and saved again — same path, same backend instance; another
+# path, a fresh instance; XML in between; a later load of the first file must still show the first state
+SeqStream.corpus = [
+    dict(_w(), ops=[_save(), {"op": "mut", "m": "status", "at": _T1, "status": "failed", "details": "known issue, see #1234"},
+                    {"op": "mut", "m": "tag", "at": _T1, "s": "known-issue"}, _save()]),
+    dict(_w(), ops=[_save(path=0), {"op": "mut", "m": "link", "at": _T1, "url": "http://bug/1", "name": "#1"},
+                    {"op": "mut", "m": "add-step", "at": _T1, "step": {"desc": "triage", "start": R.T0 + 20_000, "end": R.T0 + 21_000,
+                     "entries": [{"k": "log", "level": "warn", "msg": "tracked", "t": R.T0 + 20_500}]}},
+                    _save(path=1, reuse=False, jc=False, how="report.save"), _save(backend="xml", path=2),
+                    {"op": "load", "path": 0, "via": "loader"}]),
+]
 
 
 def streams(ctx):
-    return [JsonStream(), XmlStream(), EtNorm(), TimeLayer()]
+    return [JsonStream(), XmlStream(), SeqStream(), EtNorm(), JsonText(), TimeLayer()]
